@@ -457,14 +457,23 @@ impl Rewriter {
       let generic_class_name = original_name.type_name.type_name;
       let fn_name = original_name.fn_name;
       let replacement_class =
-        generics_replacement_map.get(&generic_class_name).unwrap().as_id().unwrap();
-      let rewritten_fn_name = mir::FunctionName { type_name: *replacement_class, fn_name };
-      self.rewrite_non_generic_fn_name(
-        heap,
-        rewritten_fn_name,
-        function_type,
-        function_type_arguments,
-      )
+        *generics_replacement_map.get(&generic_class_name).unwrap().as_id().unwrap();
+      // The replacement is an already specialized class: `Box<int>` is `Box__int`.
+      // Its methods are declared on `Box`, and as for a method call on a receiver of a known
+      // class, the class's type arguments come before the method's own.
+      let class_type_arguments = self.symbol_table.type_name_suffix(replacement_class).to_vec();
+      let declaring_class =
+        self.symbol_table.derived_type_name_with_suffix(replacement_class, Vec::new());
+      let declared_fn_name = mir::FunctionName { type_name: declaring_class, fn_name };
+      if self.original_functions.contains_key(&declared_fn_name) {
+        return self.rewrite_non_generic_fn_name(
+          heap,
+          declared_fn_name,
+          function_type,
+          class_type_arguments.into_iter().chain(function_type_arguments).collect(),
+        );
+      }
+      mir::FunctionName { type_name: replacement_class, fn_name }
     }
   }
 
